@@ -363,6 +363,32 @@ exp = _elementwise("exp", lambda x: xexp(XF.of(x)), real_np.exp)
 sqrt = _elementwise("sqrt", lambda x: xsqrt(XF.of(x)), real_np.sqrt)
 abs_ = _elementwise("abs", lambda x: xabs(XF.of(x)), real_np.abs)
 square = _elementwise("square", lambda x: xmul(XF.of(x), XF.of(x)), real_np.square)
+
+
+def _xspacing(x):
+    """np.spacing in the exact-real model: a fresh positive magnitude between |x|*2^-53 and |x|*2^-52 carrying x's sign (the smallest
+    subnormal at 0); NaN/inf arguments give NaN."""
+    import z3
+    from .xf import R, rcmp, zb
+    a = XF.of(x)
+    if a.is_const():
+        return XF.of(float(real_np.spacing(a.to_float())))
+    av = R(a.v)
+    hit = CTX.memo.get(("spacing", av.get_id()))
+    if hit is not None:
+        r = hit[1]
+    else:
+        r = CTX.fresh_real("spacing")
+        CTX.memo[("spacing", av.get_id())] = (av, r)
+        lo, hi = Fraction(1, 2 ** 53), Fraction(1, 2 ** 52)
+        tiny = Fraction(1, 2 ** 1074)
+        CTX.side(z3.If(av == 0, r == z3.Q(tiny.numerator, tiny.denominator),
+                       z3.If(av > 0, z3.And(r >= av * z3.Q(lo.numerator, lo.denominator), r <= av * z3.Q(hi.numerator, hi.denominator), r > 0),
+                             z3.And(r <= av * z3.Q(lo.numerator, lo.denominator), r >= av * z3.Q(hi.numerator, hi.denominator), r < 0))))
+    return XF(r, Or(a.nan, a.inf()), False, False)
+
+
+spacing = _elementwise("spacing", _xspacing, real_np.spacing)
 logical_not = _elementwise("logical_not", lambda x: SB(Not(_b(x))), real_np.logical_not)
 
 
@@ -636,7 +662,7 @@ for _n, _f in dict(isnan=isnan, isinf=isinf, isfinite=isfinite, any=any_, all=al
                    logical_and=logical_and, logical_or=logical_or, logical_not=logical_not, where=where, zeros=zeros, ones=ones, full=full,
                    array=array, asarray=asarray, stack=stack, concatenate=concatenate, argsort=argsort, cumsum=cumsum, searchsorted=searchsorted,
                    unravel_index=unravel_index, dot=dot, unique=unique, isscalar=isscalar, copy=copy, squeeze=squeeze, expand_dims=expand_dims,
-                   reshape=reshape, percentile=percentile).items():
+                   reshape=reshape, percentile=percentile, spacing=spacing).items():
     setattr(NP, _n, _f)
 NP.linalg = _Linalg()
 NP.ndarray = real_np.ndarray
